@@ -370,18 +370,26 @@ def r5(fx):
                 continue        # a new helper whose calls were all inlined by the canonicaliser: its definition is dead code
             if roots != {('encoder', 'encode')}:
                 raise Unknown(f'{fi.name} calls find_version with a non-constant micro argument and is reached from {sorted(roots)}: no rule for this caller')
-    # mask_scores: width == height on its call chain
-    ok = True
+    # mask_scores: width == height on its call chain: _encode -> mask selection -> evaluate_mask -> mask_scores
+    from . import p06
+    from .models import trace_encode
     chain = []
-    for caller, patt in (('evaluate_mask', 'mask_scores(matrix, width, height)'), ('find_and_apply_best_mask', 'H_f(H_m, width, height)')):
-        fn = fx.fn('encoder', caller)
-        cs = [c for c in src.calls_in(fn, into_nested=False) if pat.match(c, patt) is not None
-              and (caller == 'evaluate_mask' or (isinstance(c.func, ast.Name) and not c.keywords and c.func.id not in ('apply_mask', 'make_matrix',
-                                                                                                                       'add_finder_patterns', 'add_alignment_patterns')))]
-        ok &= len(cs) == 1
-        chain.append([ast.unparse(c) for c in cs])
-    yield ob('mask_scores receives the width/height of _encode, where height = width (C02.R3)', ok, fx.fn('encoder', 'mask_scores'),
-             got=chain, want='width, height passed through unchanged')
+    for v in (1, 7, 40):
+        rec, _, _ = trace_encode(fx, v, 'M', 'M')
+        st = [r for r in rec if r[0] == 'find_and_apply_best_mask']
+        n = iso.size_of(v)
+        if len(st) != 1 or list(st[0][1][1:3]) != [n, n] and (st[0][2].get('width'), st[0][2].get('height')) != (n, n):
+            chain.append(f'_encode (version {v}) calls the mask selection with {[(r[1][1:], r[2]) for r in st]}')
+    it6 = Interp(max_steps=20_000_000)
+    log = []
+    genv, _ = p06._selection_env(fx, it6, [3, 1, 4, 1, 5, 9, 2, 6], False, log)
+    FuncVal(fx.fn('encoder', 'find_and_apply_best_mask'), genv, it6)(genv['make_matrix'](21, 21), 21, 21)
+    dims = sorted({(x[2], x[3]) for x in log if x[0] == 'eval'})
+    if dims != [(21, 21)]:
+        chain.append(f'the mask selection evaluates candidates with (width, height) = {dims}')
+    chain += [f'{o.key}: {o.got}' for o in p06.r8(fx) if o.key.startswith('evaluate_mask =') and not o.ok]
+    yield ob('mask_scores receives the width/height of _encode, where height = width (C02.R3)', not chain, fx.fn('encoder', 'mask_scores'),
+             got=chain or 'width, height passed through unchanged', want='width, height passed through unchanged')
 
 
 @rule('C14', 'R6', 3, 'termination: no recursion in the call graph; the only while-loop advances; no unbounded iterators')
@@ -394,16 +402,41 @@ def r6(fx):
         for n in src.walk_local(fn):
             if isinstance(n, ast.While):
                 whiles.append((m, q, n))
-    need(whiles, 'no while-loop found (the N3 search loop is expected)')
+    if not whiles:
+        yield ob('no while-loop in the package', True, fx.forest.mod('encoder'), where='package', got='none', want='every while-loop advances')
     for m, q, w in whiles:
         yield ob(f'while-loop in {m}.{q} makes progress on every iteration', _progress(w) is not None, w, got=_progress(w) or f'no progress argument found for `while {ast.unparse(w.test)[:60]}`',
                  want='a variable moves monotonically towards the bound tested by the loop condition')
     inf = []
+
+    def unbounded(c):
+        d = (src.call_name(c) or '').split('.')[-1]
+        return (d in ('count', 'cycle') and (src.call_name(c) or '').split('.')[0] in ('itertools', 'count', 'cycle')) or \
+            (d == 'repeat' and len(c.args) == 1 and not c.keywords and not _inside_fillvalue(c))
+
+    def bounded_use(node, fn, depth=0):
+        """`node` (an unbounded iterator expression or a name bound to one) is only drawn from as often as a finite partner
+        allows: an argument of zip beside a bounded iterable, the first argument of islice / takewhile, or of next."""
+        par = src.parent(node)
+        if isinstance(par, ast.Compare) and all(isinstance(o, (ast.Is, ast.IsNot)) for o in par.ops):
+            return True         # an identity test draws nothing
+        if isinstance(par, ast.Call) and node in par.args:
+            name = (src.call_name(par) or '').split('.')[-1]
+            if name == 'zip':
+                others = [a for a in par.args if a is not node]
+                return bool(others) and any(not (isinstance(a, ast.Call) and unbounded(a)) for a in others)
+            if name in ('islice', 'takewhile') and len(par.args) >= 2:
+                return True
+            if name == 'next':
+                return True
+        if isinstance(par, ast.Assign) and len(par.targets) == 1 and isinstance(par.targets[0], ast.Name) and depth == 0:
+            var = par.targets[0].id
+            loads = [n for n in src.walk_local(fn) if isinstance(n, ast.Name) and n.id == var and isinstance(n.ctx, ast.Load)]
+            return bool(loads) and all(bounded_use(n, fn, 1) for n in loads)
+        return False
     for m, q, fn in fx.forest.functions():
         for c in src.calls_in(fn, into_nested=False):
-            d = (src.call_name(c) or '').split('.')[-1]
-            if d in ('count', 'cycle') and (src.call_name(c) or '').split('.')[0] in ('itertools', 'count', 'cycle') or \
-                    (d == 'repeat' and len(c.args) == 1 and not c.keywords and not _inside_fillvalue(c)):
+            if unbounded(c) and not bounded_use(c, fn):
                 inf.append(f'{m}.{q}: {ast.unparse(c)}')
     yield ob('no unbounded iterator (count, cycle, repeat without count) is consumed', not inf, fx.forest.mod('writers'),
              where='package', got=inf, want=[])
@@ -436,32 +469,70 @@ def _progress(w):
                 if set(a) <= {iv, ''} and a.get(iv) == 1 and a.get('', 0) >= 1 and not before and len(stores) == 1:
                     return f'{iv} = find(..., {iv} + {a[""]}) on every iteration'
         return None
+    def stores_of(name):
+        return [n for s_ in body for n in ast.walk(s_) if isinstance(n, ast.Name) and isinstance(n.ctx, ast.Store) and n.id == name]
+
+    def continue_before(k):
+        return [n for s_ in body[:k] for n in ast.walk(s_) if isinstance(n, ast.Continue)]
+    written = {n.id for s_ in body for n in ast.walk(s_) if isinstance(n, ast.Name) and isinstance(n.ctx, ast.Store)}
+    # (d) `while True` search loop: i = seq.find(p, s); if i == -1: return / break; ...; s = i + k (k >= 1)
+    if isinstance(w.test, ast.Constant) and w.test.value is True:
+        for k, st in enumerate(body):
+            if not (isinstance(st, ast.Assign) and len(st.targets) == 1 and isinstance(st.targets[0], ast.Name)):
+                continue
+            bb = pat.match(st.value, 'H_s.find(H_p, H_o)')
+            if bb is None or not isinstance(bb['o'], ast.Name) or k + 1 >= len(body):
+                continue
+            iv, sv = st.targets[0].id, bb['o'].id
+            nxt = body[k + 1]
+            leaves = isinstance(nxt, ast.If) and pat.match(nxt.test, f'{iv} == -1') is not None and nxt.body and isinstance(nxt.body[-1], (ast.Return, ast.Break))
+            if not leaves:
+                continue
+            for k2 in range(k + 2, len(body)):
+                s2 = body[k2]
+                if isinstance(s2, ast.Assign) and len(s2.targets) == 1 and isinstance(s2.targets[0], ast.Name) and s2.targets[0].id == sv:
+                    try:
+                        a = nf.affine(s2.value)
+                    except Unknown:
+                        continue
+                    if set(a) <= {iv, ''} and a.get(iv) == 1 and a.get('', 0) >= 1 and not continue_before(k2) and len(stores_of(sv)) == 1 and len(stores_of(iv)) == 1 \
+                            and not ({n.id for n in ast.walk(bb['s']) if isinstance(n, ast.Name)} & written):
+                        return f'{iv} = find(..., {sv}), leaves at -1, {sv} = {iv} + {a[""]} on every other iteration'
+        return None
     conj = w.test.values if isinstance(w.test, ast.BoolOp) and isinstance(w.test.op, ast.And) else [w.test]
     for c in conj:
-        for ptn, vi, bi in (('H_v < H_b', 'v', 'b'), ('H_v <= H_b', 'v', 'b')):
-            bb = pat.match(c, ptn)
-            if bb is None:
+        if not (isinstance(c, ast.Compare) and len(c.ops) == 1):
+            continue
+        left, op, right = c.left, c.ops[0], c.comparators[0]
+        # orientations: counter on the smaller side and growing, or on the larger side and shrinking
+        cands = []
+        if isinstance(op, (ast.Lt, ast.LtE)):
+            cands = [(left, right, +1), (right, left, -1)]
+        elif isinstance(op, (ast.Gt, ast.GtE)):
+            cands = [(left, right, -1), (right, left, +1)]
+        for cand, other, direction in cands:
+            if not isinstance(cand, ast.Name):
                 continue
-            for v, bnd in ((bb['v'], bb['b']), (bb['b'], bb['v'])):
-                pass
-            v, bnd = bb['v'], bb['b']
-            # pat.match is orientation-insensitive: find which side is the counter
-            for cand, other in ((v, bnd), (bnd, v)):
-                if not isinstance(cand, ast.Name):
-                    continue
-                incs = [st for st in body if isinstance(st, ast.AugAssign) and isinstance(st.target, ast.Name) and st.target.id == cand.id
-                        and isinstance(st.op, ast.Add) and isinstance(st.value, ast.Constant) and isinstance(st.value.value, int) and st.value.value > 0]
-                if len(incs) != 1:
-                    continue
-                k = body.index(incs[0])
-                skips = [n for s_ in body[:k] for n in ast.walk(s_) if isinstance(n, ast.Continue)]
-                other_names = {n.id for n in ast.walk(other) if isinstance(n, ast.Name)}
-                written = {n.id for s_ in body for n in ast.walk(s_) if isinstance(n, ast.Name) and isinstance(n.ctx, ast.Store)}
-                stores = [n for s_ in body for n in ast.walk(s_) if isinstance(n, ast.Name) and isinstance(n.ctx, ast.Store) and n.id == cand.id]
-                # the counter must be on the smaller side: `cand < other`
-                ok_side = nf.same(c, f'{cand.id} < {ast.unparse(other)}') or nf.same(c, f'{cand.id} <= {ast.unparse(other)}')
-                if ok_side and not skips and not (other_names & written) and len(stores) == 1 and not any(isinstance(n, ast.Call) for n in ast.walk(other) if not (isinstance(n, ast.Call) and src.call_name(n) == 'len')):
-                    return f'{cand.id} += {incs[0].value.value} on every iteration, bounded by {ast.unparse(other)}'
+            steps = []
+            for k, st in enumerate(body):
+                if isinstance(st, ast.AugAssign) and isinstance(st.target, ast.Name) and st.target.id == cand.id and isinstance(st.value, ast.Constant) \
+                        and isinstance(st.value.value, int) and not isinstance(st.value.value, bool) and st.value.value > 0 \
+                        and isinstance(st.op, ast.Add if direction > 0 else ast.Sub):
+                    steps.append((k, st.value.value))
+                elif isinstance(st, ast.Assign) and len(st.targets) == 1 and isinstance(st.targets[0], ast.Name) and st.targets[0].id == cand.id:
+                    try:
+                        a = nf.affine(st.value)
+                    except Unknown:
+                        continue
+                    if set(a) <= {cand.id, ''} and a.get(cand.id) == 1 and isinstance(a.get('', 0), int) and a.get('', 0) * direction > 0:
+                        steps.append((k, abs(a[''])))
+            if len(steps) != 1:
+                continue
+            k, step = steps[0]
+            other_names = {n.id for n in ast.walk(other) if isinstance(n, ast.Name)}
+            pure_bound = not any(isinstance(n, ast.Call) and src.call_name(n) != 'len' for n in ast.walk(other))
+            if not continue_before(k) and not (other_names & written) and len(stores_of(cand.id)) == 1 and pure_bound:
+                return f'{cand.id} {"+=" if direction > 0 else "-="} {step} on every iteration, bounded by {ast.unparse(other)}'
     return None
 
 
